@@ -89,6 +89,10 @@ class SharedBuilder(Builder):
 
 
 # ---------------------------------------------------------------------------------------------- reference side
+class CyclicDAG(Exception):
+    """an expression 'DAG' that contains itself"""
+
+
 class Keys:
     """Own structural key, computed by plain recursion with memo on object identity."""
 
@@ -99,6 +103,7 @@ class Keys:
 
     def key(self, e):
         stack = [e]
+        expanding = set()  # nodes whose operands are being keyed: meeting one again means the DAG has a cycle
         while stack:
             n = stack[-1]
             if id(n) in self.ids:
@@ -106,8 +111,12 @@ class Keys:
                 continue
             todo = [o for o in n.ufl_operands if id(o) not in self.ids]
             if todo:
+                if id(n) in expanding or any(id(o) in expanding or o is n for o in todo):
+                    raise CyclicDAG(type(n).__name__)
+                expanding.add(id(n))
                 stack.extend(todo)
                 continue
+            expanding.discard(id(n))
             if n._ufl_is_terminal_:
                 desc = (type(n).__name__, repr(n))
             else:
